@@ -273,6 +273,9 @@ pub enum When {
     /// send_request only: the call is parked waiting for stream credit when the SETTINGS arrive and are applied;
     /// the credit comes afterwards, so the HEADERS frame is written with the advertised limit in force
     DuringOpen,
+    /// server slots: a first request has been answered (with a small response) BEFORE the client's SETTINGS
+    /// arrive; they are then applied, and the attempt is made on a second request of the same connection
+    AfterFirstExchange,
     After,
     Never,
 }
@@ -406,12 +409,25 @@ pub fn send_run(c: &SendCase) -> SendOutcome {
     } else {
         let (net2, res2, st2, go2, sent2, slot, hm2) = (net.clone(), res.clone(), state.clone(), go.clone(), sent.clone(), c.slot, hm.clone());
         let created2 = created.clone();
+        let first_exchange = c.when == When::AfterFirstExchange;
         let sp = ex.spawner();
         ex.spawn("main", async move {
             let mut b = h3::server::builder();
             b.send_grease(false);
             let mut conn: SrvConn = b.build(SimConn::new(&net2, SERVER)).await.unwrap();
             *st2.borrow_mut() = Some(conn.inner.shared.clone());
+            if first_exchange {
+                // request on stream 0: answered right away, before any SETTINGS of the peer
+                let r0 = match conn.accept().await {
+                    Ok(Some(r)) => r,
+                    _ => return,
+                };
+                if let Ok((_req, mut s0)) = r0.resolve_request().await {
+                    let _ = s0.send_response(http::Response::builder().status(200).body(()).unwrap()).await;
+                    let _ = s0.finish().await;
+                }
+                *created2.borrow_mut() = true;
+            }
             let resolver = match conn.accept().await {
                 Ok(Some(r)) => r,
                 _ => return,
@@ -515,6 +531,29 @@ pub fn send_run(c: &SendCase) -> SendOutcome {
                     net.raw_grant_bidi(CLIENT, 1);
                     *go.borrow_mut() = true;
                 }
+                When::AfterFirstExchange => {
+                    // wait for the first answer, then advertise the limit, then send the second request
+                    let mut spins = 0;
+                    while !*created.borrow() && spins < 600 {
+                        spins += 1;
+                        yield_now().await;
+                    }
+                    net.raw_open(ctrl);
+                    net.raw_write(peer, ctrl, &settings);
+                    let mut spins = 0;
+                    loop {
+                        let applied = state.borrow().as_ref().map(|s| limit_is(&s.settings(), c.limit)).unwrap_or(false);
+                        if applied || spins > 300 {
+                            break;
+                        }
+                        spins += 1;
+                        yield_now().await;
+                    }
+                    net.raw_open(4);
+                    net.raw_write(CLIENT, 4, &rf::frame(rf::HEADERS, REQ_SECTION));
+                    net.raw_fin(CLIENT, 4);
+                    *go.borrow_mut() = true;
+                }
                 When::After => {
                     *go.borrow_mut() = true;
                     let mut spins = 0;
@@ -537,8 +576,8 @@ pub fn send_run(c: &SendCase) -> SendOutcome {
     let result = res.borrow().clone();
     SendOutcome {
         result,
-        wire: net.wire(me, 0),
-        applied: matches!(c.when, When::Before | When::Between | When::DuringOpen),
+        wire: net.wire(me, if c.when == When::AfterFirstExchange { 4 } else { 0 }),
+        applied: matches!(c.when, When::Before | When::Between | When::DuringOpen | When::AfterFirstExchange),
         close_calls: net.close_calls(me).iter().map(|c| c.0).collect(),
         panics: q.panics,
     }
@@ -557,7 +596,7 @@ pub fn judge_send(c: &SendCase, o: &SendOutcome) -> Vec<(String, String)> {
     for (t, p) in &o.panics {
         out.push((format!("C10:send:{slot}:panic@{}", explore::panics::short_loc(p)), format!("{ctx}: task {t} panicked: {p}")));
     }
-    let in_force = if matches!(c.when, When::Before | When::Between | When::DuringOpen) { c.limit } else { VARINT_MAX };
+    let in_force = if matches!(c.when, When::Before | When::Between | When::DuringOpen | When::AfterFirstExchange) { c.limit } else { VARINT_MAX };
     // 1. nothing over the limit in force on the wire
     let (frames, _) = rf::segment(&o.wire);
     let heads: Vec<&rf::Frame> = frames.iter().filter(|f| f.ty == rf::HEADERS).collect();
@@ -601,7 +640,7 @@ pub fn judge_send(c: &SendCase, o: &SendOutcome) -> Vec<(String, String)> {
         }
     } else if o.result != "ok" {
         out.push((
-            format!("C10:send:{slot}:refused-within-limit:{}", if matches!(c.when, When::Before | When::Between | When::DuringOpen) { "limit-applied" } else { "before-settings" }),
+            format!("C10:send:{slot}:refused-within-limit:{}", if matches!(c.when, When::Before | When::Between | When::DuringOpen | When::AfterFirstExchange) { "limit-applied" } else { "before-settings" }),
             format!("{ctx}: limit in force {in_force}; send returned {:?}", o.result),
         ));
     }
@@ -615,7 +654,7 @@ pub fn run(args: &Args) -> i32 {
     let thorough = args.tier == Tier::Thorough;
     let mut rep = Report::new("C10", args.tier, args.seed, "model_checking");
     rep.exhaustive = true;
-    rep.rule = "receive: limits {0, 1, 33, 34, 35, 64, 89, 100, 167, 16383, 2^62-1} x sections whose RFC size sweeps L-2..L+2 (built by stretching one value and by adding a field, so the per-field +32 is exercised) plus the empty and the minimal section, reference-encoded (literal representations) and injected by a scripted peer as request headers, response headers, request trailers, response trailers (client side: through the original SendRequest handle and through a clone of it); the 431 path with the client advertising {nothing, 41, 42, 43}. send: the same limits advertised by a scripted peer x application sections sweeping L-2..L+2 x {send_request, send_response, request trailers, response trailers} x SETTINGS delivered {before the stream exists (and applied), after the stream exists but before the attempt (and applied), while send_request is parked waiting for stream credit (and applied before the credit comes), after the attempt, never}; every HEADERS frame on the wire is decoded and measured by refimpl. states = distinct cases; non-trivial = cases at distance <= 2 from the limit.".into();
+    rep.rule = "receive: limits {0, 1, 33, 34, 35, 64, 89, 100, 167, 16383, 2^62-1} x sections whose RFC size sweeps L-2..L+2 (built by stretching one value and by adding a field, so the per-field +32 is exercised) plus the empty and the minimal section, reference-encoded (literal representations) and injected by a scripted peer as request headers, response headers, request trailers, response trailers (client side: through the original SendRequest handle and through a clone of it); the 431 path with the client advertising {nothing, 41, 42, 43}. send: the same limits advertised by a scripted peer x application sections sweeping L-2..L+2 x {send_request, send_response, request trailers, response trailers} x SETTINGS delivered {before the stream exists (and applied), after the stream exists but before the attempt (and applied), while send_request is parked waiting for stream credit (and applied before the credit comes), after a first request of the connection has been answered (the attempt is made on a second request), after the attempt, never}; every HEADERS frame on the wire is decoded and measured by refimpl. states = distinct cases; non-trivial = cases at distance <= 2 from the limit.".into();
     rep.assumptions = vec![
         "refimpl::fields::section_size = sum(name + value + 32) (RFC 9114 4.2.2)".into(),
         "the smallest request h3 delivers (CONNECT + :authority) has size 89: smaller limits are exercised at the boundary through trailers (regular fields only) and with always-oversize heads".into(),
@@ -692,8 +731,11 @@ pub fn run(args: &Args) -> i32 {
                     if api_fields(slot, s, by_adding).is_none() {
                         continue;
                     }
-                    for when in [When::Before, When::Between, When::DuringOpen, When::After, When::Never] {
+                    for when in [When::Before, When::Between, When::DuringOpen, When::AfterFirstExchange, When::After, When::Never] {
                         if when == When::DuringOpen && slot != Slot::Request {
+                            continue;
+                        }
+                        if when == When::AfterFirstExchange && !matches!(slot, Slot::Response | Slot::ResponseTrailers) {
                             continue;
                         }
                         scases.push(SendCase { slot, limit: l, size: s, by_adding, when });
@@ -764,6 +806,7 @@ pub fn replay(r: &Value) -> i32 {
                     "Before" => When::Before,
                     "Between" => When::Between,
                     "DuringOpen" => When::DuringOpen,
+                    "AfterFirstExchange" => When::AfterFirstExchange,
                     "After" => When::After,
                     _ => When::Never,
                 },
